@@ -65,6 +65,7 @@ func (c *Ctx) droppedDecodeErrors(fn *ssa.Function, names ...string) {
 func runC14(c *Ctx) {
 	w := c.W
 	c14Extras(c)
+	nameFillRule(c) // RevocationData.Issuer is the CRL issuer as filled by FillFromRDNSequence
 	fn := w.Fn(fnCRLChk)
 	if fn == nil {
 		c.Undecided("R-CUT", fnCRLChk, "anchor", "-", "not found")
